@@ -33,6 +33,24 @@ def gen(ctx, rng):
             step = min(step, (6.0 - start) / (k - 1))           # lambda stays <= 1e6 (float range of the solver, cf. C01)
             c["llas"] = [start + step * i for i in range(k)]
         cases.append(c)
+    # extreme envelopes on long noisy / floor-clipped series: the final reweighting at the selected lambda does not settle within
+    # its 10 passes, so the band depends on the curve that loop starts from (it must be the zero curve, as in ws2dpgu)
+    for it in range(60 if ctx.thorough else 20):
+        n = int(rng.integers(110, 200))
+        t = np.arange(n)
+        if it % 3 == 0:
+            y = np.round(rng.normal(2000, 900, n))
+        elif it % 3 == 1:
+            y = np.round(np.maximum(300.0, 2500 + 2600 * np.sin(2 * np.pi * t / float(rng.uniform(20, 60))) + rng.normal(0, 250, n)))
+        else:
+            y = np.round(np.repeat(rng.normal(2000, 900, n // 12 + 1), 12)[:n] + rng.normal(0, 40, n))
+        c = dict(kind=["optvp", "optvplc"][it % 4 == 3], y=[float(v) for v in y], nodata=-3000.0, n=n, miss=0,
+                 p=float(rng.choice([0.99999, 0.00001, 0.9999, 0.0001, 0.99, 0.01])))
+        if c["kind"] == "optvplc":
+            c["lc"] = float(rng.choice([0.9, 0.2]))
+        else:
+            c["llas"] = [float(v) for v in np.arange(-1.0, 3.1, 0.5)]
+        cases.append(c)
     acc = []
     for k in range(6 if ctx.thorough else 3):
         T = int(rng.integers(8, 40))
@@ -43,6 +61,7 @@ def gen(ctx, rng):
                  name=[None, "ndvi"][k % 2])
         if k % 3 == 0:
             a["lc"] = [[0.9, 0.5, None], [0.2, 0.5000001, -0.3]]
+            a["lc_order"] = ["x", "y"] if k % 2 == 0 else None      # matched to the cube by name, not by position
             a["p"] = 0.9
             a["dtype"] = "int16"
         else:
